@@ -15,9 +15,9 @@ def textCovered : List String :=
     | none => false)).map (·.1)
 
 theorem text_covered_types :
-    textCovered = ["AFSDB", "AVC", "CDNSKEY", "CDS", "CNAME", "DHCID", "DLV", "DNAME", "DNSKEY", "DS", "EID", "KEY", "KX", "LP", "MB", "MD", "MF", "MG",
+    textCovered = ["AFSDB", "AVC", "CDNSKEY", "CDS", "CNAME", "DHCID", "DLV", "DNAME", "DNSKEY", "DS", "EID", "GID", "KEY", "KX", "LP", "MB", "MD", "MF", "MG",
       "MINFO", "MR", "MX", "NIMLOC", "NINFO", "NS", "NSAPPTR", "OPENPGPKEY", "PTR", "PX", "RESINFO", "RKEY", "RP", "RT", "SPF", "SRV",
-      "SSHFP", "TA", "TALINK", "TLSA", "TXT", "X25", "ZONEMD"] := by
+      "SSHFP", "TA", "TALINK", "TLSA", "TXT", "UID", "X25", "ZONEMD"] := by
   decide
 
 theorem text_covered_all :
